@@ -67,6 +67,12 @@ func svnPlatform(r *mrand.Rand) *world.Platform {
 	case 1:
 		p.QeIsvSvn = 65535
 	}
+	switch r.Intn(6) {
+	case 0:
+		p.QeIsvProdID = 0
+	case 1:
+		p.QeIsvProdID = 65535
+	}
 	if r.Intn(2) == 0 {
 		p.TeeTcb[1] = byte(1 + r.Intn(9))
 	}
